@@ -9,3 +9,10 @@ func VerifSetMaxCandidateCount(n int) int {
 	max_candidate_count = n
 	return old
 }
+
+// VerifPending returns the number of records which are in the write ahead file but not yet applied to the data files.
+func (beansdb *BeansDB) VerifPending() int {
+	beansdb.Queue.IndexRW.RLock()
+	defer beansdb.Queue.IndexRW.RUnlock()
+	return len(beansdb.Queue.Index)
+}
